@@ -190,7 +190,7 @@ pub struct LatInfo {
 }
 
 /// Programs for C03 (and, as bases, for C02 / C05 / C13 / C14 / C20).
-pub fn gen_lattice<R: Src>(r: &mut R, _cfg: &GenCfg) -> Program {
+pub fn gen_lattice<R: Src>(r: &mut R, cfg: &GenCfg) -> Program {
    let mut prog = Program::default();
    let mut rel_names: Vec<String> = REL_POOL.iter().map(|s| s.to_string()).collect();
    r.shuffle(&mut rel_names);
@@ -336,7 +336,7 @@ pub fn gen_lattice<R: Src>(r: &mut R, _cfg: &GenCfg) -> Program {
    }
    // ---- observers in a later stratum: arbitrary reads of the finished lattice
    for l in &lats {
-      if r.chance(75) {
+      if r.chance(75) && cfg.lat_observers {
          let obs = next_rel();
          let mut cols = vec![k; l.n_keys];
          cols.push(l.vt);
